@@ -165,7 +165,7 @@ fn run_one(h: &History, st: &mut Stats, class: &str) -> Result<(), Failure> {
 }
 
 pub fn replay(case: &Value, _kf: &KnownFindings) -> Result<(), Failure> {
-    let h = History::from_json(case);
+    let h = super::cross::case_history(case);
     let mut st = Stats::new();
     run_one(&h, &mut st, "replay")
 }
